@@ -71,6 +71,9 @@ func (o *rawOrigin) RoundTrip(req *http.Request) (*http.Response, error) {
 	if rp.Err {
 		return nil, errOrigin
 	}
+	if rp.NilResp {
+		return nil, nil
+	}
 	resp, _, err := buildResponse(req, &rp, n, k)
 	return resp, err
 }
@@ -140,6 +143,9 @@ func runHistoryRaw(t *testing.T, h *History) {
 			}
 			if op.Host != "" {
 				req.Host = op.Host
+			}
+			if op.NilHeader && len(op.Hdr) == 0 {
+				req.Header = nil
 			}
 			for _, p := range op.Hdr {
 				req.Header.Add(p[0], p[1])
